@@ -5,7 +5,10 @@ REAL_TXN = ("modes without suffix - real code: tikv.KVStore, txnkv/transaction, 
             "internal/mockstore/mocktikv (RPC handlers + MVCCLevelDB + Cluster); stub: gRPC/batch client (SimTransport), PD (SimPD/TSO over "
             "the repo's mock cluster), wall clock (testing/synctest fake clock); modes ending in -R - the same client code, but the TiKV server is the "
             "reference store sim/refkv (2PC, async commit, 1PC, CheckSecondaryLocks, Flush) behind the same simulated transport, with the region / "
-            "epoch / leader checks of mocktikv.Session over the shared mocktikv.Cluster")
+            "epoch / leader checks of mocktikv.Session over the shared mocktikv.Cluster. Per-run knobs (each on its own random stream): assertion levels and flags, replica-read types "
+            "and staleness-read-only snapshots (the reference store serves flagged reads on followers, answers stale reads DataIsNotReady by plan), asynchronous batch gets "
+            "(config.EnableAsyncBatchGet), response-level lock errors of batch gets and a store that refuses async commit / 1PC (reference store), lock-only-if-exists lock steps, "
+            "late starts of background goroutines (verif yield hook), 20 kinds of region error plus a request that is executed and answered UndeterminedResult")
 
 PROPS = {
     "C01": {
